@@ -124,6 +124,7 @@ def add_result(agg, idx, run_seed, scenario, res):
     if res.get('nontrivial', True) and d:
         agg['nontrivial'].add(d[:16])
     if res.get('harness_error'):
+        agg['n_harness'] = agg.get('n_harness', 0) + 1
         if len(agg['harness']) < 5:
             agg['harness'].append({'index': idx, 'seed': run_seed,
                                    'error': res['harness_error'],
@@ -153,6 +154,7 @@ def merge(a, b):
         a[key] |= b[key]
     a['violations'].extend(b['violations'])
     a['harness'].extend(b['harness'])
+    a['n_harness'] = a.get('n_harness', 0) + b.get('n_harness', 0)
     if len(a['samples']) < 4:
         a['samples'].extend(b['samples'][:4 - len(a['samples'])])
 
@@ -341,7 +343,7 @@ def write_evidence(check, tier, seed, agg, n_viol, extra_cov=None):
         'probes_at_zero': zero,
         'components': check.COMPONENTS,
         'runs_with_violation': agg['viol_runs'],
-        'harness_errors': len(agg['harness']),
+        'inconclusive_runs': agg.get('n_harness', 0),
         'skipped_chunks_wall_cap': agg.get('skipped_chunks', 0),
         'exhaustive': False,
     }
@@ -459,11 +461,22 @@ def main(check, argv=None):
                 if match_known([e], s) is not None)
         print('KNOWN-FINDING: property={} {} [{}] observed_in_runs={}'.format(
             check.PROP, e['what_fails'], e['signature'], n))
-    if agg['harness']:
+    n_inconclusive = agg.get('n_harness', len(agg['harness']))
+    if n_inconclusive:
         h = agg['harness'][0]
-        print('HARNESS-ERROR in run index {} seed {}:\n{}'.format(
-            h['index'], h['seed'], h['error']))
-        exit_code = max(exit_code, 2) if exit_code != 1 else 1
+        tolerated = max(3, agg['runs'] // 500)
+        if n_inconclusive <= tolerated:
+            # a run that hit a step cap decides nothing; a handful per batch
+            # is tolerated and reported, never counted as held or violated
+            print('INCONCLUSIVE: {} of {} runs ended without a verdict '
+                  '(first: run index {} seed {}: {})'.format(
+                      n_inconclusive, agg['runs'], h['index'], h['seed'],
+                      h['error'].strip().split('\n')[-1][:300]))
+        else:
+            print('HARNESS-ERROR {} of {} runs; first in run index {} seed '
+                  '{}:\n{}'.format(n_inconclusive, agg['runs'], h['index'],
+                                    h['seed'], h['error']))
+            exit_code = max(exit_code, 2) if exit_code != 1 else 1
     if agg.get('broken'):
         print('HARNESS-ERROR worker pool: {}'.format(agg['broken']))
         exit_code = max(exit_code, 2) if exit_code != 1 else 1
